@@ -73,6 +73,17 @@ CLAIMED["C06"] = ("MerkleTree",
     "blake3 uninterpreted: hashes, salts, keys, byte strings, texts and large lengths are interned ids, injectivity is checked over what a run sees; inside a list the length is a function of the chunk hash (MerkleMemDB keeps one node per hash) and the zero hash is not a leaf.",
     "5.2, 6 C06")
 
+CLAIMED["C07"] = ("Xorb",
+    "TLC model checking of Xorb.tla (serialization with the fallback rule, footer as prefix sums, range reads; negative control Skip=fallback); generated chunk-shape lists (1 B..128 KiB, every residue mod 4, six content classes, none/lz4/bg4/auto, up to 8192 chunks) serialized by CasObject::serialize and read back through every reader and the three chunk decoders; events validated against Trace_Xorb.tla",
+    "Exhaustive model checking of RoundTrip for all xorbs of <=3 chunks over a 6-chunk universe, plus conformance: for every recorded xorb the frames and footer found in the written bytes by an independent parser, the footer returned and the footer re-read must equal the specification's object computed from the chunk list and the independently computed compressor sizes (scheme in {requested, none}, none exactly when not strictly smaller; boundary and unpacked arrays = prefix sums); every chunk range a<b, get_all_bytes, uncompressed_range_length and the sync / async-read / stream decoders must return SubSeq(ids, a, b) with the specified offsets.",
+    "LZ4 (lz4_flex) and blake3 uninterpreted: compressor sizes are inputs of the spec, decoded bytes are interned ids (0 = equals no input chunk); unsafe bg4 code exercised, not proved.",
+    "5.3, 6 C07")
+CLAIMED["C08"] = ("Xorb",
+    "TLC model checking of Xorb.tla (both validators check by check, 39 field-level mutation kinds, 3 footer forms; negative control Skip=bounds); every mutated object of the model (Gen_Xorb) concretised by an independent encoder and given to validate_cas_object, validate_cas_object_from_async_read, CasObject::deserialize and deserialize_only_boundaries_section in a child process under RLIMIT_AS; byte-level fault enumeration (flips, truncation at every offset, splices, inflated fields, random strings) on valid xorbs of the real serializer and of the independent encoder; events validated against Trace_Xorb.tla",
+    "Exhaustive model checking of AcceptSound (accept => frames decode, recomputed root = claimed hash, relied-on footer consistent), ValidComplete and validator agreement over all single field-level mutations of all xorbs of <=3 chunks, plus conformance: for every mutated object of the model (quick: <=2 chunks, 8.1k; thorough: all 112k) the code's accept / not-accept for both validators and both footer parsers must equal the model's and the independent strict reading of the bytes must equal the model's summary; for every fault input an accept(h) requires the independent decode + merkleref recomputation to report decodes, root = h and a consistent relied-on footer, valid xorbs must be accepted for their own hash only, and no call may panic, abort under RLIMIT_AS or hang.",
+    "misaligned parsing is abstracted in the model (tested by the exhaustive replay); allocation observed as child death under RLIMIT_AS = 512 MiB, panics in debug builds; the streaming validator accepts the empty xorb, agreement claimed for non-empty v1 objects.",
+    "5.3, 6 C08")
+
 PENDING_REASON = "check not built yet in this round (planned in DESIGN.md section 6); no claim is made"
 
 checks = []
